@@ -87,9 +87,12 @@ StepFailed(uni, call, before, after) ==
         (* no stale parent links: after any clear_* call, and for a protocluster that was just (re-)added, a protocluster's
            parent is nothing or a candidate cluster of the record that lists it.  (Right after candidate formation the
            link may point at a candidate that formation built and then discarded as a duplicate; the statement only
-           speaks about clearing and re-creating.) *)
+           speaks about clearing and re-creating - so clearing regions or subregions, which leaves candidates alone, is
+           only blamed for a link that was in order before the call.) *)
         \cup (IF \E i \in DOMAIN after.protos :
-                    /\ (call.op \in {"ClearRegions", "ClearSubs", "ClearCands", "ClearProtos"} \/ (call.op = "AddProto" /\ after.protos[i].id = call.arg))
+                    /\ (call.op \in {"ClearCands", "ClearProtos"} \/ (call.op = "AddProto" /\ after.protos[i].id = call.arg)
+                        \/ (call.op \in {"ClearRegions", "ClearSubs"}
+                            /\ \E j \in DOMAIN before.protos : before.protos[j].id = after.protos[i].id /\ before.protos[j].parent # -1))
                     /\ (after.protos[i].parent = -1 \/
                         (after.protos[i].parent > 0 /\ after.protos[i].id \notin Rng(after.cands[after.protos[i].parent].members)))
               THEN {"protocluster_parent_is_a_current_candidate_listing_it"} ELSE {})
